@@ -1,4 +1,4 @@
-import PkgProofs.Lemmas.ReqClause
+import PkgProofs.Lemmas.ReqLayout
 /-!
 # C08 — Requirement parsing decomposes PEP 508 strings faithfully
 
@@ -14,9 +14,12 @@ Theorems about `Req` (`PkgModel/Requirement.lean`), the model the correspondence
 3. `marker_after_url_needs_ws` — the URL is a maximal run of non-white-space characters; a marker exists only behind
    white space after it.
 7. `requirement_marker_eq_marker` — the marker part is `Marker(text)` of the text after the semicolon.
+8. `parse_wf`, `requirement_roundtrip` — every accepted requirement is well formed and round-trips through `str`
+   (only hypothesis: the marker's literals are PEP 508 strings).
+9. `parse_render` — `parse (render x) = sem x` for **every white-space layout** `x` of the grammar.
 -/
 namespace C08
-open Py Mk Req ReqLex ReqParse ReqL ReqRound ReqWf
+open Py Mk Req ReqLex ReqParse ReqL ReqRound ReqWf ReqLayout
 set_option linter.unusedSimpArgs false
 
 /-! ### 1. `str` parses back (character level) -/
@@ -33,9 +36,6 @@ theorem str_roundtrip (r : Requirement) (h : Wf r) :
 theorem str_idempotent (r : Requirement) (h : Wf r) : (Req.parse (Req.str r)).toOption.map Req.str = some (Req.str r) := by
   obtain ⟨r', h1, _, h2, _⟩ := str_roundtrip r h
   simp [h1, Except.toOption, h2]
-
-theorem mkSpecSet_nil : mkSpecSet [] = .ok [] := by
-  simp [mkSpecSet, clauses, SSet.clauses, splitOn, strip, parseAll, SSet.parseAll, specSet]
 
 /-! ### 2. A URL and a version list are mutually exclusive -/
 
@@ -251,6 +251,18 @@ theorem requirement_roundtrip (src : Str) (r : Requirement) (h : Req.parse src =
   obtain ⟨_, c, _, hp⟩ := members_roundtrip _ _ hs sp hsp
   exact ⟨ReqClause.ver_chars_of_parse c sp hp, ReqClause.tokExact_of_parse c sp hp⟩
 
+/-! ### 9. Any white-space layout (the stretch goal) -/
+
+/-- **`parse (render x) = sem x` for every white-space layout `x`** of the PEP 508 grammar (see `ReqLayout.parse_render`
+for the definitions: `Layout` carries a run of spaces/tabs at every `wsp*` position, `render` writes it out, `sem` is
+the requirement built from the parts: name, set of extras, `SpecifierSet` of exactly the clauses, URL, `Marker` of the
+marker text).  Excluded by `Layout.OK`: an `===` clause with the comma directly behind it (finding F05). -/
+theorem parse_render (x : Layout) (hx : x.OK) (m : Option (List M))
+    (hm : ∀ mtext, x.details.mtext = some mtext → ∃ m0, Mk.parse mtext = .ok m0 ∧ m = some m0)
+    (hmn : x.details.mtext = none → m = none) :
+    Req.parse x.render = .ok (x.sem m) :=
+  ReqLayout.parse_render x hx m hm hmn
+
 /-! ### Non-vacuity: the hypotheses are satisfiable, the conclusions are not trivial -/
 namespace Examples
 
@@ -335,6 +347,44 @@ example : errOf (Req.parse (ofString "x>=1.0.*")) = some .invalidRequirement ∧
 /-- the generated SPECIFIER rule is literally the body of `Specifier._regex` (the pattern C12 proves equal to the
 PEP 440 clause language); if the source changes this fails to compile -/
 theorem specifier_rule_tied : Gen.ReqTok.specTied = true ∧ Gen.ReqTok.supported = true := by decide
+
+
+/-! #### a layout for `parse_render` -/
+
+def sp : Str := [32]
+def c1 : Cl := ⟨.ge, sp, ofString "1.0a1"⟩
+def c2 : Cl := ⟨.arbitrary, sp, ofString "x"⟩
+def c3 : Cl := ⟨.ne, [], ofString "2.*"⟩
+/-- ` Foo.Bar [ b , a ] ( >= 1.0a1 , === x ,!=2.* ) ; os_name == 'a'` -/
+def lay : Layout :=
+  { w0 := sp, name := ofString "Foo.Bar", w1 := sp,
+    extras := some (sp, some (ofString "b", [(sp, sp, ofString "a")], sp), sp),
+    details := .spec (.paren sp (some (c1, [(sp, sp, c2), (sp, [], c3)], sp)) sp) (some (ofString " os_name == 'a'")) }
+
+example : lay.render = ofString " Foo.Bar [ b , a ] ( >= 1.0a1 , === x ,!=2.* ) ; os_name == 'a'" := by decide
+
+theorem wsRun_sp : WsRun sp := by intro c hc; simp [sp] at hc; exact Or.inl hc
+theorem wsRun_nil : WsRun [] := by intro c hc; cases hc
+
+theorem identOK_of (s : Str) (c : Nat) (t : Str) (h : s = c :: t) (h1 : isIdentHead c = true)
+    (h2 : t.all isIdentTail = true) (h3 : isWordO (lastOr s none) = true) : IdentOK s :=
+  ⟨c, t, h, h1, fun x hx => List.all_eq_true.mp h2 x hx, h3⟩
+
+/-- the layout satisfies the hypotheses of `parse_render` -/
+theorem lay_ok : lay.OK := by
+  refine ⟨wsRun_sp, identOK_of _ 70 _ rfl (by decide) (by decide) (by decide), wsRun_sp, ⟨wsRun_sp, ⟨?_, ?_, wsRun_sp⟩, wsRun_sp⟩, ?_⟩
+  · exact identOK_of _ 98 _ rfl (by decide) (by decide) (by decide)
+  · intro it hit
+    simp only [List.mem_cons, List.mem_nil_iff, or_false] at hit
+    subst hit
+    exact ⟨wsRun_sp, wsRun_sp, identOK_of _ 97 _ rfl (by decide) (by decide) (by decide)⟩
+  · refine ⟨wsRun_sp, ⟨?_, ⟨wsRun_sp, wsRun_sp, ?_, (fun h => by cases h), wsRun_sp, wsRun_nil, ?_, (fun _ => by decide), trivial⟩, wsRun_sp⟩, wsRun_sp⟩
+    · exact ⟨wsRun_sp, by decide +kernel, by decide, fun h => by cases h⟩
+    · exact ⟨wsRun_sp, by decide +kernel, by decide, fun _ => by decide⟩
+    · exact ⟨wsRun_nil, by decide +kernel, by decide, fun h => by cases h⟩
+
+/-- and the marker text is one `Marker` accepts -/
+example : (Mk.parse (ofString " os_name == 'a'")).toOption.map MkParse.atomsL = some [a1] := by decide +kernel
 
 end Examples
 end C08
